@@ -444,9 +444,23 @@ def check_frame_depth(ctx, rep, rule):
         for b, t in fn.calls():
             if callee_name(t) == 'alloc::vec::Vec::<T, A>::push' and on_frames(fn, t['args'][0]):
                 sites.append((fn, b, t))
+    def after_reset(fn, b):
+        """the push re-creates the base frame right after the list was emptied (`frames.clear(); frames.push(Frame::new(0, 0))` at
+        the start of a run): the list then holds one frame - it is not a call"""
+        loops_b = [set(body) for h, body in fn.natural_loops() if b in body]
+        for cb, ct in fn.calls():
+            if callee_name(ct) in ('alloc::vec::Vec::<T, A>::clear',) and ct['args'] and on_frames(fn, ct['args'][0]) and cb != b and fn.dominates(cb, b) \
+                    and all(cb in L for L in loops_b):
+                between = fn.reachable(ct['target'], stop={b}) if ct.get('target') is not None else set()
+                if not any(callee_name(t2) == 'alloc::vec::Vec::<T, A>::push' and on_frames(fn, t2['args'][0]) for b2, t2 in fn.calls(between - {b})):
+                    return True
+        return False
     n = 0
     for fn, b, t in sites:
         n += 1
+        if after_reset(fn, b):
+            rep.good(rule, fn.path, 'frames.push#%d' % n, 'the base frame, pushed right after the frame list was cleared', span_loc(t['span']))
+            continue
         ok = guarded(fn, b)
         where = 'in the function'
         if not ok:
